@@ -369,6 +369,102 @@ func TestRandom(t *testing.T) {
 	})
 }
 
+// TestPackagerReuse: one packager encodes several frames before any of the tags is decoded
+// (a muxer that batches tags); every tag must still decode to its own frame.
+type BCase struct {
+	Audio []AF `json:"audio"`
+	Video []VF `json:"video"`
+}
+
+func runBatch(c BCase) error {
+	ap, _ := flv.NewAudioPackager()
+	vp, _ := flv.NewVideoPackager()
+	var atags, vtags [][]byte
+	for _, a := range c.Audio {
+		b, err := ap.Encode(a.frame())
+		if err != nil {
+			return err
+		}
+		atags = append(atags, b)
+	}
+	for _, v := range c.Video {
+		fr := flv.NewVideoFrame()
+		fr.CodecID, fr.FrameType, fr.Trait, fr.CTS, fr.Raw = flv.VideoCodec(v.Codec), flv.VideoFrameType(v.FType), flv.VideoFrameTrait(v.Trait), v.CTS, v.Raw
+		b, err := vp.Encode(fr)
+		if err != nil {
+			return err
+		}
+		vtags = append(vtags, b)
+	}
+	for i, a := range c.Audio {
+		if w := refAudioBody(a); !bytes.Equal(atags[i], w) {
+			return fmt.Errorf("audio tag %d of %d encoded by one packager changed after later Encode calls: %x, want %x", i, len(atags), head(atags[i]), head(w))
+		}
+		f, err := ap.Decode(atags[i])
+		if err != nil {
+			return fmt.Errorf("audio tag %d: decode: %v", i, err)
+		}
+		if uint8(f.SoundFormat) != a.Format || uint8(f.SoundRate) != a.Rate || uint8(f.Trait) != a.Trait || f.AudioLevel != a.Level || !bytes.Equal(f.Raw, a.Raw) {
+			return fmt.Errorf("audio tag %d of %d decodes to another frame after the packager encoded later frames", i, len(atags))
+		}
+	}
+	for i, v := range c.Video {
+		f, err := vp.Decode(vtags[i])
+		if err != nil {
+			return fmt.Errorf("video tag %d: decode: %v", i, err)
+		}
+		if uint8(f.CodecID) != v.Codec || uint8(f.FrameType) != v.FType || uint8(f.Trait) != v.Trait || f.CTS != v.CTS || !bytes.Equal(f.Raw, v.Raw) {
+			return fmt.Errorf("video tag %d of %d decodes to another frame after the packager encoded later frames", i, len(vtags))
+		}
+	}
+	return nil
+}
+
+var recBatch = ev.New(prop, "packager-reuse", "rapid-generated batches: one audio and one video packager each encode 2-6 frames (AAC/Opus/other; AVC/HEVC/other) before any tag is decoded; every tag must keep its bytes and decode to its own frame; all non-trivial")
+
+func genAF(t *rapid.T) AF {
+	a := AF{Format: rapid.SampledFrom([]uint8{10, 13, 13, 2, 0}).Draw(t, "format"), Size: uint8(rapid.IntRange(0, 1).Draw(t, "size")), Type: uint8(rapid.IntRange(0, 1).Draw(t, "type")),
+		Raw: rapid.SliceOfN(rapid.Byte(), 1, 30).Draw(t, "raw")}
+	switch a.Format {
+	case 10:
+		a.Rate = uint8(rapid.IntRange(0, 3).Draw(t, "rate"))
+		a.Trait = rapid.Uint8().Draw(t, "trait")
+	case 13:
+		a.Trait = rapid.Uint8().Draw(t, "trait")
+		if a.Trait&4 != 0 {
+			a.Rate = rapid.SampledFrom(opusRates).Draw(t, "orate")
+		}
+		if a.Trait&8 != 0 {
+			a.Level = rapid.Uint16().Draw(t, "level")
+		}
+	default:
+		a.Rate = uint8(rapid.IntRange(0, 3).Draw(t, "rate"))
+	}
+	return a
+}
+
+func TestPackagerReuse(t *testing.T) {
+	ev.Rapid(t, "packager-reuse", 3000, 200000, func(t *rapid.T) {
+		var c BCase
+		for i, n := 0, rapid.IntRange(2, 6).Draw(t, "na"); i < n; i++ {
+			c.Audio = append(c.Audio, genAF(t))
+		}
+		for i, n := 0, rapid.IntRange(2, 6).Draw(t, "nv"); i < n; i++ {
+			v := VF{Codec: rapid.SampledFrom([]uint8{7, 12, 2, 4}).Draw(t, "codec"), FType: uint8(rapid.IntRange(0, 15).Draw(t, "ftype")), Raw: rapid.SliceOfN(rapid.Byte(), 4, 30).Draw(t, "vraw")}
+			if v.Codec == 7 || v.Codec == 12 {
+				v.Trait = rapid.Uint8().Draw(t, "vtrait")
+				v.CTS = int32(rapid.IntRange(0, 1<<24-1).Draw(t, "cts"))
+			}
+			c.Video = append(c.Video, v)
+		}
+		err := ev.Try(func() error { return runBatch(c) })
+		recBatch.Case(true, ev.Hash(c), nil, func() any { return c })
+		if err != nil {
+			fail(t, "packager-reuse", c, err)
+		}
+	})
+}
+
 // TestRates: every defined rate code converts to the frequency of its definition.
 func TestRates(t *testing.T) {
 	rec := ev.New(prop, "rate-codes", "the 4 FLV rate codes and the 5 defined Opus rate codes against the frequencies of the FLV / Opus definitions; every case non-trivial")
@@ -422,6 +518,13 @@ func replayers() map[string]ev.Replayer {
 				return err
 			}
 			return runR(c)
+		},
+		"packager-reuse": func(raw json.RawMessage) error {
+			var c BCase
+			if err := json.Unmarshal(raw, &c); err != nil {
+				return err
+			}
+			return runBatch(c)
 		},
 		"rate-codes": func(raw json.RawMessage) error {
 			var c struct {
